@@ -57,6 +57,7 @@ package bluemonday
 //@   requires[C16] !outFailed
 //@   modifies ghost outFailed, outN, outLast, outCount, tzCur, tzPrev, tzErr, sanEl, sanRes, lastErr, lastBuf, gD, gSP, gName, gBare, gKept, gCnt, gSkip, gTopBare, gTopKept, gShadow
 //@   modifies nothing
+//@   modifies fields bytes.Buffer of w
 //@   ensures[C16] outFailed ==> result != nil
 //@   ensures[C16] result == nil ==> tzErr == io.EOF
 //@   requires[textpres] !p.allowUnsafe
@@ -162,6 +163,7 @@ package bluemonday
 //@   requires[C16] !outFailed
 //@   modifies ghost outFailed, outN, outLast, outCount, tzCur, tzPrev, tzErr, sanEl, sanRes, lastErr, lastBuf, gD, gSP, gName, gBare, gKept, gCnt, gSkip, gTopBare, gTopKept, gShadow
 //@   modifies nothing
+//@   modifies fields bytes.Buffer of w
 //@   ensures[C16] outFailed ==> result != nil
 //@   ensures[C16] result == nil ==> tzErr == io.EOF
 
